@@ -291,7 +291,7 @@ def run(tier):
                         "overlapping domains was created or served from the cache; plus a few instances with 114-124 variables and an equality between every pair (cache keys, literal identity, total assignment)")
     res.assumptions = ["variables created with the default enforce_exct_one=true (the planner's enforce_exct_one=false path is covered by C17 at solver level)"]
     exe = build.driver("dbg", "net_drv")
-    total = 4800 if tier == "quick" else 30000
+    total = 4800 if tier == "quick" else 150000
     per = 50 if tier == "quick" else 250
     common.pmap(work, [(exe, s, per) for s in range(0, total, per)], res)
     common.pmap(scale_work, [(exe, k) for k in range(4 if tier == "quick" else 32)], res)
